@@ -264,8 +264,10 @@ def walkStep (s : St) (c : Nat) (nxt : Option Nat) : St :=
 
 /-- qb_ipcs_destroy's walk, repaired (D20c): first_get/next_get with references -/
 def walkFix : Nat → St → Option Nat → St
-  | 0, s, _ => s
-  | _+1, s, none => s
+  | _, s, none => s
+  | 0, s, some c =>
+    -- out of fuel (cannot happen, the fuel is the list length + 1): only drop the walk's reference
+    if s.halt then s else exec FUEL (brCloseW s c) (.zero c)
   | n+1, s, some c =>
     if s.halt then s else
     let s := s.touch c
